@@ -63,4 +63,10 @@ def run(rep, kf, tier, seed):
                         "the real generator run natively to render the schematic package (parser + jinja2)"]
                        + ["assumed library contract: " + t for t in libmodels.TRUSTED])
     rep.assumptions.extend(ASSUME)
+    from props.common import engine_b_crosscheck
+    try:
+        engine_b_crosscheck(rep, tier, convert_value=False, models=["3.1.0", "3.0.3"])
+    finally:
+        from pyvc import fragments as _fr
+        _fr.cleanup_all()
     return {"level": "proof"}
